@@ -9,19 +9,39 @@ import (
 	"fmt"
 	"os"
 	"path/filepath"
+	"strings"
 
 	"verifharness/core"
 )
 
 func init() { core.Register("C17", Main) }
 
+// raceLogOnly: reports excluded by exact key because the racing read cannot influence
+// what the pool holds or offers (DESIGN 3.5). txPricedList.Reheap stores l.stales with a
+// plain write under the pool lock while the pool's loop goroutine (inlined into
+// NewTxPool's go statement) loads it atomically without the lock; the loaded value only
+// feeds the "Transaction pool status report" debug line.
+var raceLogOnly = map[string]bool{
+	"mainchain/tx_pool.(*txPricedList).Reheap|mainchain/tx_pool.NewTxPool.gowrap2": true,
+}
+
 func Main() {
 	r := core.Start("C17", "exploration")
 	processSetup()
 	r.SetRule("sequential history = 50..400 operations (AddLocal(s)/AddRemotes/AddRemotesSync/AddRemote of valid, replacing, duplicate, underpriced, gapped, oversized, unaffordable, wrong-chain, negative, blacklisted transactions; ChainHeadEvents and silent head changes with mined blocks, forks, nonce/balance/gas-limit moves; SetGasPrice; journal reload; lifetime expiry) over 4 senders with limits 2/6/3/6, judged after every operation; non-trivial = at least one ChainHeadEvent was processed and at least 10 distinct transactions were accepted; concurrent history = 8 submitters + head producer + price changer, non-trivial = at least 20 accepted transactions and one processed head event; distinct by case index")
 	r.Assume("limit invariants are evaluated at the reorg fixpoint (two idle reorg runs), structural invariants after every call; local = member of pool.Locals()")
-	r.Cases("corpus", len(scenarios()), core.Opts{Workers: 8}, corpus)
-	r.Cases("history", r.N(300, 30000), core.Opts{Workers: 16}, history)
+	// development aid only: C17_GROUPS=corpus,history restricts the groups that run
+	// (floors of skipped groups then make the run inconclusive, as they should)
+	want := func(g string) bool {
+		f := os.Getenv("C17_GROUPS")
+		return f == "" || strings.Contains(","+f+",", ","+g+",")
+	}
+	if want("corpus") {
+		r.Cases("corpus", len(scenarios()), core.Opts{Workers: 8}, corpus)
+	}
+	if want("history") {
+		r.Cases("history", r.N(300, 30000), core.Opts{Workers: 16}, history)
+	}
 
 	// concurrent histories under the race detector, in child processes
 	var env []string
@@ -40,6 +60,9 @@ func Main() {
 			for _, rr := range newRaceReports() {
 				r.Count("race_reports", 1)
 				switch {
+				case raceLogOnly[rr.key]:
+					r.Count("race_reports_excluded_log_only", 1)
+					r.Distinct("race_keys_excluded", rr.key)
 				case rr.inKardia:
 					r.Distinct("race_keys", rr.key)
 					c.Violation("race:"+rr.key, "DATA RACE reported with an access in go-kardia code (tx_pool non-test code: "+fmt.Sprint(rr.inPool)+")", map[string]interface{}{"report": rr.text})
@@ -49,11 +72,17 @@ func Main() {
 			}
 		}
 	}
-	r.Cases("concurrent", r.N(8, 500), core.Opts{Race: true, Procs: r.N(4, 8), StallSec: 400, Env: env}, withRaces(concurrent))
+	if want("concurrent") {
+		r.Cases("concurrent", r.N(8, 500), core.Opts{Race: true, Procs: r.N(4, 8), StallSec: 400, Env: env}, withRaces(concurrent))
+	}
+	if want("blacklist-refresh") {
+		r.Cases("blacklist-refresh", r.N(2, 10), core.Opts{Race: true, Procs: 2, StallSec: 400, Env: env}, withRaces(blacklistRefresh))
+	}
 	if scratch != "" {
 		os.RemoveAll(scratch) // Finish exits the process: no defer
 	}
 	r.Floor("conc_accepted_txs", 100)
 	r.Floor("conc_head_events", 20)
+	r.Floor("blacklist_refreshes_ok", 1)
 	r.Finish()
 }
